@@ -66,7 +66,7 @@ def main():
         "engines": [{"name": "fcheck", "path": "/verif/checker", "serves_properties": sorted(c["property_id"] for c in checks), "kind_free_text": "repository-specific static analyser (go/packages + go/ssa): table extraction by constant folding, dominance / must-pass-through, def-use origin and effect rules; nothing under /repo is executed"}],
         "checks": checks,
         "not_applicable": na,
-        "notes": "All claims are level `other`: structural necessary conditions decided exhaustively over the source (DESIGN.md). Genuine defects found are fixed in /repo as `fix:` commits and recorded in known_findings.json.",
+        "notes": "All claims are level `other`: structural necessary conditions decided exhaustively over the source (DESIGN.md). Genuine defects found are fixed in /repo as `fix:` commits (24 fixed entries) or recorded as known findings (3: C12 hex literal, C08 two `%v` operands that print addresses) in known_findings.json.",
     }
     json.dump(m, open("/verif/MANIFEST.json", "w"), indent=1)
     print("checks:", [c["property_id"] for c in checks], "n/a:", [n["property_id"] for n in na])
